@@ -116,7 +116,8 @@ def native_tu():
 #include <smooth/optim.hpp>
 #include <smooth/so3.hpp>
 // problem 0: Rosenbrock-like residuals in R^2, problem 1: SO3 alignment, problem 2: linear least squares R^3 (rank deficient)
-extern "C" int min_native(int problem, int strategy, unsigned max_iter, const double * x0, double * costs, int ncosts, int * status, unsigned * iters)
+// problem 4: full-rank linear least squares in SMALL UNITS (residual scaled by 2^-20): minimiser A^-1 b; xout receives the final iterate
+extern "C" int min_native(int problem, int strategy, unsigned max_iter, const double * x0, double * costs, int ncosts, int * status, unsigned * iters, double * xout)
 {
   using namespace smooth;
   std::vector<double> rec;
@@ -135,6 +136,14 @@ extern "C" int min_native(int problem, int strategy, unsigned max_iter, const do
     auto f  = [&](const SO3d & g) -> Eigen::Vector3d { return g - target; };
     auto cb = [&](const SO3d & g) { rec.push_back(f(g).squaredNorm()); };
     res = minimize<diff::Type::Numerical>(f, wrt(x), cb, opts);
+  } else if (problem == 4) {
+    Eigen::Vector3d x(x0[0], x0[1], x0[2]);
+    Eigen::Matrix3d A; A << 2, 1, 0, 1, 3, 1, 0, 1, 4;
+    const double sc = std::ldexp(1., -20);
+    auto f  = [&](const Eigen::Vector3d & v) -> Eigen::Vector3d { return sc * (A * v - Eigen::Vector3d(1, 2, 3)); };
+    auto cb = [&](const Eigen::Vector3d & v) { rec.push_back(f(v).squaredNorm()); };
+    res = minimize<diff::Type::Numerical>(f, wrt(x), cb, opts);
+    xout[0] = x(0); xout[1] = x(1); xout[2] = x(2);
   } else if (problem == 3) {
     // poorly scaled polynomial residual: the predicted reduction is below the rounding of 1 - (.)^2
     double x = x0[0];
@@ -174,7 +183,8 @@ def run_standin(tier="quick", seed=0):
     f.restype = ctypes.c_int
     rng = random.Random(seed)
     n = 48 if tier == "quick" else 480
-    fams = {0: "rosenbrock", 1: "so3-alignment", 2: "rank-deficient-linear", 3: "illscaled-polynomial"}
+    fams = {0: "rosenbrock", 1: "so3-alignment", 2: "rank-deficient-linear", 3: "illscaled-polynomial", 4: "small-units-linear"}
+    XSTAR4 = [1 / 3, 1 / 3, 2 / 3]      # A^-1 b of problem 4 (A = [[2,1,0],[1,3,1],[0,1,4]], b = (1,2,3))
     bad = {}
     runs = 0
 
@@ -183,10 +193,12 @@ def run_standin(tier="quick", seed=0):
         costs = (ctypes.c_double * 256)()
         st = ctypes.c_int()
         it = ctypes.c_uint()
-        k = f(prob, strat, ctypes.c_uint(mi), x0, costs, 256, ctypes.byref(st), ctypes.byref(it))
+        xo = (ctypes.c_double * 3)()
+        k = f(prob, strat, ctypes.c_uint(mi), x0, costs, 256, ctypes.byref(st), ctypes.byref(it), xo)
+        run.xout = list(xo)
         return [costs[j] for j in range(min(k, 256))], st.value, it.value, k
     for i in range(n):
-        prob, strat = i % 4, (i // 4) % 2
+        prob, strat = i % 5, (i // 5) % 2
         mi = rng.choice([1, 2, 5, 20, 100])
         x0v = [rng.uniform(-2, 2) for _ in range(3)] if prob != 3 else [0.0, 0.0, 0.0]
         cs, st, it, k = run(prob, strat, mi, x0v)
@@ -197,6 +209,8 @@ def run_standin(tier="quick", seed=0):
             why = "callback costs increase: %r" % (inc[:2],)
         elif it > mi or (st == 2 and it != mi) or k != len(cs) or k < 1:
             why = "iteration/status contract violated (iter=%d, max_iter=%d, status=%d)" % (it, mi, st)
+        elif prob == 4 and st != 2 and max(abs(a - b) for a, b in zip(run.xout, XSTAR4)) > 1e-3:
+            why = "status %d (converged) but the result %r is %.3g away from the minimiser %r" % (st, run.xout, max(abs(a - b) for a, b in zip(run.xout, XSTAR4)), XSTAR4)
         elif st != 2 and it >= 1:
             # metamorphic: a run that converged after `it` iterations must report the same status with a budget of exactly `it`
             cs2, st2, it2, _ = run(prob, strat, it, x0v)
@@ -204,7 +218,7 @@ def run_standin(tier="quick", seed=0):
                 why = "converged with status %d after %d iterations, but with max_iter=%d reports status %d (iter %d)" % (st, it, it, st2, it2)
         if why and fams[prob] not in bad:
             bad[fams[prob]] = dict(problem=fams[prob], strategy=strat, max_iter=mi, x0=x0v, costs=cs[:12], status=st, iter=it, why=why)
-    res.standins.append(dict(function="smooth::minimize", points=runs, grid="4 problem families x 2 strategies x max_iter in {1,2,5,20,100}", label="bounded"))
+    res.standins.append(dict(function="smooth::minimize", points=runs, grid="5 problem families x 2 strategies x max_iter in {1,2,5,20,100}", label="bounded"))
     for fam in fams.values():
         oid = "%s/%s" % (tag, fam)
         if fam in bad:
